@@ -664,10 +664,20 @@ class TableAttributes(TextAttributes):
             cells = []
 
             for j in range(dim[1]):
+                border_width = get_broadcast_value("border_width", i, j)
+
+                def make_border(side: str) -> Border:
+                    """Border of one cell edge: style, width and (if set) color."""
+                    options = {"style": get_broadcast_value(f"border_{side}", i, j)}
+                    if border_width is not None:
+                        options["width"] = border_width
+                    color = get_broadcast_value(f"border_color_{side}", i, j)
+                    if color:
+                        options["color"] = color
+                    return Border(**options)
+
                 if j == dim[1] - 1:
-                    border_right = Border(
-                        style=get_broadcast_value("border_right", i, j)
-                    )
+                    border_right = make_border("right")
                 else:
                     border_right = None
 
@@ -696,12 +706,10 @@ class TableAttributes(TextAttributes):
                         hyphenation=get_broadcast_value("text_hyphenation", i, j),
                     ),
                     width=col_widths[j],
-                    border_left=Border(style=get_broadcast_value("border_left", i, j)),
+                    border_left=make_border("left"),
                     border_right=border_right,
-                    border_top=Border(style=get_broadcast_value("border_top", i, j)),
-                    border_bottom=Border(
-                        style=get_broadcast_value("border_bottom", i, j)
-                    ),
+                    border_top=make_border("top"),
+                    border_bottom=make_border("bottom"),
                     vertical_justification=get_broadcast_value(
                         "cell_vertical_justification", i, j
                     ),
